@@ -1101,5 +1101,66 @@ theorem shiftTorch2_mirror {M N : ℕ} (hM : 0 < M) (hN : 0 < N) {c c' : ℕ →
     rw [hlR, hround, centre_add_mul _ hN]
     exact centre_neg _ hN htie
 
+/-! ### intensity scale -/
+theorem argmaxN_scale {lam : ℝ} (hl : 0 < lam) (n : ℕ) (f : ℕ → ℝ) :
+    argmaxN n (fun i => lam * f i) = argmaxN n f := by
+  induction n with
+  | zero => rfl
+  | succ n ih =>
+    rw [argmaxN_succ, argmaxN_succ, ih]
+    by_cases h : f (argmaxN n f) < f n
+    · rw [if_pos h, if_pos ((mul_lt_mul_iff_right₀ hl).mpr h)]
+    · rw [if_neg h, if_neg (fun h' => h ((mul_lt_mul_iff_right₀ hl).mp h'))]
+
+theorem argmax2_scale {lam : ℝ} (hl : 0 < lam) (M N : ℕ) (c : ℕ → ℕ → ℝ) :
+    argmax2 M N (fun s t => lam * c s t) = argmax2 M N c := by
+  unfold argmax2
+  rw [argmaxN_scale hl (M * N) (fun p => c (p / N) (p % N))]
+
+theorem parabolic_scale {lam : ℝ} (hl : lam ≠ 0) (v0 v1 v2 : ℝ) :
+    parabolic (lam * v0) (lam * v1) (lam * v2) = parabolic v0 v1 v2 := by
+  rw [parabolic_eq, parabolic_eq]
+  have : 4 * (lam * v1) - 2 * (lam * v2) - 2 * (lam * v0) = lam * (4 * v1 - 2 * v2 - 2 * v0) := by ring
+  rw [this, ← mul_sub, mul_div_mul_left _ _ hl]
+
+theorem parabolicT_scale {lam : ℝ} (hl : 0 < lam) (v0 v1 v2 : ℝ) :
+    parabolicT (lam * v0) (lam * v1) (lam * v2) = parabolicT v0 v1 v2 := by
+  unfold parabolicT
+  simp only [NumReal.ofRat_eq, NumReal.two_eq, NumReal.zero_eq, NumReal.mul_eq, NumReal.sub_eq, NumReal.div_eq]
+  have hd : ((4 : ℚ) : ℝ) * (lam * v1) - 2 * (lam * v2) - 2 * (lam * v0) = lam * (((4 : ℚ) : ℝ) * v1 - 2 * v2 - 2 * v0) := by ring
+  rw [hd, ← mul_sub]
+  set d := ((4 : ℚ) : ℝ) * v1 - 2 * v2 - 2 * v0
+  have h1 : (lam * d < 0) ↔ d < 0 := by
+    constructor
+    · intro h; by_contra hc; push Not at hc; nlinarith
+    · intro h; nlinarith
+  have h2 : (0 < lam * d) ↔ 0 < d := by
+    constructor
+    · intro h; by_contra hc; push Not at hc; nlinarith
+    · intro h; positivity
+  simp only [Num.ltb, decide_eq_true_eq, Bool.or_eq_true, h1, h2]
+  split
+  · rw [mul_div_mul_left _ _ hl.ne']
+  · rfl
+
+theorem shiftNp1_scale {lam : ℝ} (hl : 0 < lam) (M N : ℕ) (cs c : ℕ → ℕ → ℝ) :
+    shiftNp1 M N (fun s t => lam * cs s t) (fun s t => lam * c s t) = shiftNp1 M N cs c := by
+  unfold shiftNp1 coarseNp
+  simp only [argmax2_scale hl, parabolic_scale hl.ne']
+
+theorem shiftTorch2_scale {lam : ℝ} (hl : 0 < lam) (M N : ℕ) (c : ℕ → ℕ → ℝ) :
+    shiftTorch2 M N (fun s t => lam * c s t) = shiftTorch2 M N c := by
+  unfold shiftTorch2 coarseTorch
+  simp only [argmax2_scale hl, parabolicT_scale hl]
+
+theorem corrTable_scale (M N : ℕ) (a : ℝ) (x y : ℕ → ℕ → ℝ) :
+    corrTable M N (fun i j => a * x i j) (fun i j => a * y i j) = fun s t => (a * a) * corrTable M N x y s t := by
+  funext s t
+  unfold corrTable
+  rw [cc_eq, cc_eq, Finset.mul_sum]
+  refine Finset.sum_congr rfl fun i _ => ?_
+  rw [Finset.mul_sum]
+  exact Finset.sum_congr rfl fun j _ => by ring
+
 end Registration
 end QuantemModel
